@@ -158,6 +158,18 @@ def comb_gaps(n):
     return c
 
 
+def shifted_pairs(n):
+    lowest = 5
+    span = 0
+    zero_based = ((u - 1, v - 1) for (u, v) in combinations(range(1, n + 1), 2))
+    for (a, b) in zero_based:
+        if a < lowest:
+            lowest = a
+        if b - a > span:
+            span = b - a
+    return (lowest, span)
+
+
 def perm_order(n):
     prev = -1
     cnt = 0
@@ -410,6 +422,11 @@ CONTRACTS = {
                                                 'inv': ['c == C0 + _it', '(_it >= 1 and last == i * 1000 + _it) or (_it == 0 and ((_io >= 1 and m >= 1 and last == (_io - 1) * 1000 + m) or ((_io == 0 or m < 1) and last == -1)))']}]}},
                         'ensures': ['(n >= 0 and m >= 0 and result[0] == n * m) or ((n < 0 or m < 0) and result[0] == 0)',
                                     '(n >= 1 and m >= 1 and result[1] == (n - 1) * 1000 + m) or ((n < 1 or m < 1) and result[1] == -1)']},
+    # ((u-1, v-1) for (u, v) in combinations(R, 2)): the same pairs, handed out shifted (0-based): the smallest first entry is 0
+    (C, 'shifted_pairs'): {'params': {'n': 'int'}, 'requires': ['n >= 2'], 'raises': {}, 'returns': 'tuple:int,int',
+                           'loops': {0: {'nest': [{'counter': '_io', 'inv': ['(_io == 0 and lowest == 5) or (_io >= 1 and lowest == 0)', 'span >= 0', 'span <= n - 1']},
+                                                  {'inv': ['(_io == 0 and _it == 0 and lowest == 5) or lowest == 0', 'span >= 0', 'span <= n - 1']}]}},
+                           'ensures': ['result[0] == 0', 'result[1] <= n - 1', 'result[1] >= 0']},
     (C, 'comb_gaps'): {'params': {'n': 'int'}, 'raises': {}, 'returns': 'int',
                        'loops': {0: {'nest': [{'counter': '_io', 'inv': ['2 * c == _io * (2 * n - _io - 1) or (n < 1 and c == 0)', 'c >= 0']},
                                               {'ghost_at_entry_vals': {'C0': 'c'}, 'inv': ['c == C0 + _it']}]}},
@@ -456,6 +473,10 @@ NEGATIVE = {
     (C, 'pop_append#grows'): {'params': {'x': 'intlist', 'v': 'int'}, 'raises': {}, 'returns': 'int', 'ensures': ['len(x) == len(old(x)) + 1']},
     (C, 'closure_call#late'): {'params': {'a': 'int'}, 'raises': {}, 'returns': 'int', 'ensures': ['result == a + 6']},
     (C, 'bool_arith#strict'): {'params': {'a': 'int', 'b': 'int'}, 'raises': {}, 'returns': 'int', 'ensures': ['(a > b and result == 1) or (a <= b and result == 0)']},
+    (C, 'shifted_pairs#unshifted'): {'params': {'n': 'int'}, 'requires': ['n >= 2'], 'raises': {}, 'returns': 'tuple:int,int',
+                                     'loops': {0: {'nest': [{'counter': '_io', 'inv': ['(_io == 0 and lowest == 5) or (_io >= 1 and lowest == 1)', 'span >= 0']},
+                                                            {'inv': ['(_io == 0 and _it == 0 and lowest == 5) or lowest == 1', 'span >= 0']}]}},
+                                     'ensures': ['result[0] == 1']},
     (C, 'comb_gaps#ordered'): {'params': {'n': 'int'}, 'requires': ['n >= 2'], 'raises': {}, 'returns': 'int',
                                'loops': {0: {'nest': [{'counter': '_io', 'inv': ['2 * c == _io * (2 * n - _io - 1) or (n < 1 and c == 0)', 'c >= 0']},
                                                       {'ghost_at_entry_vals': {'C0': 'c'}, 'inv': ['c == C0 + _it']}]}},
